@@ -30,6 +30,10 @@ func init() {
 		Explanation: "wip"}
 	props["C04"] = &PropSpec{ID: "C04", Engines: []string{"ERRFLOW"}, Rules: []string{"ERRFLOW"},
 		Explanation: "wip"}
+	props["C09"] = &PropSpec{ID: "C09", Engines: []string{"EXEC", "SHARED"}, Rules: []string{"EXEC", "SHARED", "ALIAS"},
+		Explanation: "wip"}
+	props["C11"] = &PropSpec{ID: "C11", Engines: []string{"EXEC", "SHARED"}, Rules: []string{"ONCE", "ALIAS", "SHARED-W", "SHARED-C"},
+		Explanation: "wip"}
 	props["C12"] = &PropSpec{ID: "C12", Engines: []string{"SHARED"}, Rules: []string{"SHARED", "IMMUT", "ALIAS", "HASH"},
 		Explanation: "wip"}
 	props["C17"] = &PropSpec{ID: "C17", Engines: []string{"ERRPRED"}, Rules: []string{"ERRPRED", "RESULTLIT", "LEN"},
